@@ -103,9 +103,9 @@ theorem firstMatch_none {m : String → Bool} :
     simp only [hk, Bool.false_eq_true, if_false]
     exact firstMatch_none (fun k' hk' => h k' (List.mem_cons_of_mem _ hk'))
 
-theorem headField_mem (isLinear : Bool) (head : String) :
-    headField isLinear head ∈ fieldIndexTable := by
-  unfold headField fieldIndexTable
+theorem headField_mem (isLinear : Bool) (head lname : String) :
+    headField isLinear head lname ∈ fieldIndexTable := by
+  unfold headField roleField fieldIndexTable
   split_ifs <;> simp
 
 /-! ## `candidates`, `hpPick` -/
@@ -196,11 +196,11 @@ theorem getQuantizer_spec {env : Env} {st st' : St} {head lname cls : String} {i
     (r = none → st' = st ∧ resolveKey env lname cls = none) ∧
     (∀ q b, r = some (q, b) →
         ∃ key, resolveKey env lname cls = some key ∧
-          AllowedAt env key (headField isLinear head).2 q b ∧
+          AllowedAt env key (headField isLinear head lname).2 q b ∧
           (patternOf env lname = some key →
-             alookup (key, (headField isLinear head).2) st'.groups = some (q, b)) ∧
-          (alookup (key, (headField isLinear head).2) st.groups = none ∨ patternOf env lname = none →
-             AllowedField env key (headField isLinear head).1 (headField isLinear head).2 q b)) := by
+             alookup (key, (headField isLinear head lname).2) st'.groups = some (q, b)) ∧
+          (alookup (key, (headField isLinear head lname).2) st.groups = none ∨ patternOf env lname = none →
+             AllowedField env key (headField isLinear head lname).1 (headField isLinear head lname).2 q b)) := by
   unfold getQuantizer at h
   simp only at h
   split at h
@@ -280,11 +280,11 @@ theorem getQuantizer_spec {env : Env} {st st' : St} {head lname cls : String} {i
                   obtain ⟨rfl, rfl⟩ := h
                   have hmem := alookup_mem hb
                   have hcs := candidates_spec hcand q b hmem
-                  have hAF : AllowedField env (pat.getD cls) (headField isLinear head).1
-                      (headField isLinear head).2 q b :=
+                  have hAF : AllowedField env (pat.getD cls) (headField isLinear head lname).1
+                      (headField isLinear head lname).2 q b :=
                     ⟨l, lv, qd, hl, hlv, hqd, hcs.1, hcs.2⟩
-                  have hA : AllowedAt env (pat.getD cls) (headField isLinear head).2 q b :=
-                    ⟨l, lv, (headField isLinear head).1, qd, hl, hlv, headField_mem _ _, hqd, hcs.1, hcs.2⟩
+                  have hA : AllowedAt env (pat.getD cls) (headField isLinear head lname).2 q b :=
+                    ⟨l, lv, (headField isLinear head lname).1, qd, hl, hlv, headField_mem _ _ _, hqd, hcs.1, hcs.2⟩
                   refine ⟨?_, ?_, (fun hn => by cases hn), ?_⟩
                   rotate_left 2
                   · intro q0 b0 hqb
@@ -295,7 +295,7 @@ theorem getQuantizer_spec {env : Env} {st st' : St} {head lname cls : String} {i
                     rw [hpat] at hp
                     have hps : pat.isSome = true := by rw [hp]; rfl
                     simp only [hps, if_true] at hc ⊢
-                    have hnone : alookup (pat.getD cls, (headField isLinear head).2) st.groups = none := hc
+                    have hnone : alookup (pat.getD cls, (headField isLinear head lname).2) st.groups = none := hc
                     rw [hp] at hnone ⊢
                     simp only [Option.getD_some] at hnone ⊢
                     rw [alookup_append_of_none _ hnone]
@@ -336,7 +336,7 @@ theorem getQuantizer_cached {env : Env} {st st' : St} {head lname cls : String} 
     {r : Option (String × Int)} {p : String} {v : String × Int}
     (hG : GroupsOK env st.groups)
     (hp : patternOf env lname = some p)
-    (hc : alookup (p, (headField isLinear head).2) st.groups = some v)
+    (hc : alookup (p, (headField isLinear head lname).2) st.groups = some v)
     (h : getQuantizer env st head lname cls isLinear = .ok (r, st')) : r = some v := by
   obtain ⟨_, hmono, hnone, hsome⟩ := getQuantizer_spec hG h
   cases r with
@@ -374,7 +374,7 @@ def runCalls (env : Env) : St → List Call → Except Err (List (Option (String
 
 /-- the cache slot a call belongs to, if its layer is grouped by a pattern -/
 def groupOf (env : Env) (c : Call) : Option (String × Int) :=
-  (patternOf env c.lname).map fun p => (p, (headField c.isLinear c.head).2)
+  (patternOf env c.lname).map fun p => (p, (headField c.isLinear c.head c.lname).2)
 
 theorem runCalls_cached {env : Env} {p : String} {idx : Int} {v : String × Int} :
     ∀ {calls : List Call} {st st' : St} {rs : List (Option (String × Int))},
@@ -493,6 +493,11 @@ theorem loop2Step_shape {env : Env} {tn : Tune} {nf : Rat} {s1 : S1} {i : Nat} {
       · rw [if_pos htr] at h
         cases h; exact ⟨⟨L, rfl, SameUpToSize.refl _ _ _⟩, Or.inl rfl⟩
       · rw [if_neg htr] at h
+        cases hex : extraRoles s1 L with
+        | none => rw [hex] at h; cases h
+        | some extra =>
+        rw [hex] at h
+        dsimp only at h
         generalize requestAll env L _ (rolesFor L) = res at h
         cases res with
         | error e => cases h
@@ -611,5 +616,419 @@ theorem quantizeModel_shape {env : Env} {tn : Tune} {layers : List Layer} {o : Q
         rcases hq x hx with hx | ⟨j, L, hj, hn, hinc⟩
         · simp at hx
         · exact ⟨j, L, hj, hn, by simpa using hinc⟩
+
+/-! ## `quantize_model`: every dictionary value is within the limit of its own layer and role -/
+
+theorem isPrefixB_append (a b : List Char) : isPrefixB a (a ++ b) = true := by
+  induction a with
+  | nil => cases b <;> rfl
+  | cons c t ih => simp [isPrefixB, ih]
+
+theorem roleOf_append (n suf : String) : roleOf (n ++ suf) n = suf.toList := by
+  unfold roleOf
+  rw [String.toList_append]
+  simp [isPrefixB_append]
+
+/-- the dispatch sees only the suffix the caller appended, whatever the layer is called -/
+theorem headField_suffix (isLinear : Bool) (n suf : String) :
+    headField isLinear (n ++ suf) n = roleField isLinear suf.toList := by
+  unfold headField; rw [roleOf_append]
+
+/-- `q` is admissible for layer `L` in the role whose head suffix is `suf`: the layer's pattern or
+    class has a limit entry that admits it at the position of that role -/
+def QOK (env : Env) (L : Layer) (isLinear : Bool) (suf : String) (q : String) : Prop :=
+  ∃ key b, resolveKey env L.name L.cls = some key ∧
+    AllowedAt env key (roleField isLinear suf.toList).2 q b
+
+/-- dictionary key → head suffix of the `_get_quantizer` call that must have produced the value -/
+def roleSuffix (key : String) : Option String :=
+  if key = "kernel_quantizer" ∨ key = "depthwise_quantizer" then some "_kernel"
+  else if key = "recurrent_quantizer" then some "_recurrent_kernel"
+  else if key = "pointwise_quantizer" then some "_pointwise_kernel"
+  else if key = "bias_quantizer" then some "_bias"
+  else if key = "activation_quantizer" then some "_activation"
+  else if key = "recurrent_activation_quantizer" then some "_recurrent_activation"
+  else none
+
+def EntryOK (env : Env) (all : List Layer) (name : String) : QEntry → Prop
+  | .dict d => ∀ key q, (key, some q) ∈ d →
+      ∃ L ∈ all, L.name = name ∧ ∃ suf, roleSuffix key = some suf ∧ QOK env L false suf q
+  | .str q => ∃ L ∈ all, L.name = name ∧ L.cls = "Activation" ∧
+      QOK env L (decide (L.act = "linear")) "_activation" q
+
+theorem getQuantizer_QOK {env : Env} {st st' : St} {L : Layer} {suf : String} {isLinear : Bool}
+    {r : Option (String × Int)} (hG : GroupsOK env st.groups)
+    (h : getQuantizer env st (L.name ++ suf) L.name L.cls isLinear = .ok (r, st')) :
+    GroupsOK env st'.groups ∧ st'.groups = st'.groups ∧
+      ∀ q, (unpack r).1 = some q → QOK env L isLinear suf q := by
+  obtain ⟨hG', _, _, hs⟩ := getQuantizer_spec hG h
+  refine ⟨hG', rfl, ?_⟩
+  intro q hq
+  cases r with
+  | none => simp [unpack] at hq
+  | some qb =>
+    obtain ⟨q', b⟩ := qb
+    simp only [unpack, Option.some.injEq] at hq
+    subst hq
+    obtain ⟨key, hk, hA, _⟩ := hs q' b rfl
+    rw [headField_suffix] at hA
+    exact ⟨key, b, hk, hA⟩
+
+theorem requestAll_spec {env : Env} {L : Layer} :
+    ∀ {roles : List (String × String)} {st st' : St} {rs : List (String × Option String)},
+      GroupsOK env st.groups → requestAll env L st roles = .ok (rs, st') →
+      GroupsOK env st'.groups ∧
+      ∀ key q, (key, some q) ∈ rs → ∃ suf, (key, suf) ∈ roles ∧ QOK env L false suf q
+  | [], st, st', rs, hG, h => by
+    simp only [requestAll, Except.ok.injEq, Prod.mk.injEq] at h
+    obtain ⟨rfl, rfl⟩ := h
+    exact ⟨hG, fun _ _ hm => by simp at hm⟩
+  | (k, suf) :: t, st, st', rs, hG, h => by
+    unfold requestAll at h
+    unfold request at h
+    generalize hres : getQuantizer env st (L.name ++ suf) L.name L.cls false = res at h
+    cases res with
+    | error e => cases h
+    | ok v =>
+      obtain ⟨r, st1⟩ := v
+      dsimp only at h
+      obtain ⟨hG1, _, hq⟩ := getQuantizer_QOK hG hres
+      generalize hres2 : requestAll env L st1 t = res2 at h
+      cases res2 with
+      | error e => cases h
+      | ok v2 =>
+        obtain ⟨rs', st2⟩ := v2
+        dsimp only at h
+        simp only [Except.ok.injEq, Prod.mk.injEq] at h
+        obtain ⟨rfl, rfl⟩ := h
+        obtain ⟨hG2, hrest⟩ := requestAll_spec hG1 hres2
+        refine ⟨hG2, ?_⟩
+        intro key q hm
+        simp only [List.mem_cons, Prod.mk.injEq] at hm
+        rcases hm with ⟨rfl, hv⟩ | hm
+        · exact ⟨suf, by simp, hq q hv.symm⟩
+        · obtain ⟨suf', hmem, hok⟩ := hrest key q hm
+          exact ⟨suf', List.mem_cons_of_mem _ hmem, hok⟩
+
+theorem alookup_cons {α β : Type} [DecidableEq α] {k n : α} {v x : β} {t : List (α × β)}
+    (h : alookup k ((n, v) :: t) = some x) : (n = k ∧ v = x) ∨ alookup k t = some x := by
+  unfold alookup at h
+  split at h
+  · rename_i hk; cases h; exact Or.inl ⟨hk, rfl⟩
+  · exact Or.inr h
+
+/-- what the first loop leaves behind -/
+structure K1 (env : Env) (all : List Layer) (s : S1) : Prop where
+  groups : GroupsOK env s.st.groups
+  kernel : ∀ name q b, alookup name s.kdict = some (some q, b) →
+    ∃ L ∈ all, L.name = name ∧ QOK env L false "_kernel" q
+  recur : ∀ name q, alookup name s.recDict = some (some q) →
+    ∃ L ∈ all, L.name = name ∧ QOK env L false "_recurrent_kernel" q
+  pw : ∀ name q, alookup name s.pwDict = some (some q) →
+    ∃ L ∈ all, L.name = name ∧ QOK env L false "_pointwise_kernel" q
+
+theorem loop1Step_inv {env : Env} {tn : Tune} {all : List Layer} {s s' : S1} {L : Layer}
+    (hL : L ∈ all) (hK : K1 env all s) (h : loop1Step env tn s L = .ok s') : K1 env all s' := by
+  unfold loop1Step at h
+  by_cases hreg : L.cls ∈ REGISTERED
+  · rw [if_pos hreg] at h
+    unfold request at h
+    generalize hres : getQuantizer env s.st (L.name ++ "_kernel") L.name L.cls false = res at h
+    cases res with
+    | error e => cases h
+    | ok v =>
+      obtain ⟨r, st1⟩ := v
+      dsimp only at h
+      obtain ⟨hG1, _, hq1⟩ := getQuantizer_QOK hK.groups hres
+      -- state after the kernel request
+      have hkern : ∀ name q b, alookup name ((L.name, unpack r) :: s.kdict) = some (some q, b) →
+          ∃ L' ∈ all, L'.name = name ∧ QOK env L' false "_kernel" q := by
+        intro name q b hk
+        rcases alookup_cons hk with ⟨hn, hv⟩ | hold
+        · exact ⟨L, hL, hn, hq1 q (by rw [hv])⟩
+        · exact hK.kernel name q b hold
+      by_cases hseq : L.cls ∈ SEQUENCE
+      · rw [if_pos hseq] at h
+        generalize hres2 : getQuantizer env st1 (L.name ++ "_recurrent_kernel") L.name L.cls false = res2 at h
+        cases res2 with
+        | error e => cases h
+        | ok v2 =>
+          obtain ⟨r2, st2⟩ := v2
+          dsimp only at h
+          obtain ⟨hG2, _, hq2⟩ := getQuantizer_QOK hG1 hres2
+          have hrec : ∀ name q, alookup name ((L.name, (unpack r2).1) :: s.recDict) = some (some q) →
+              ∃ L' ∈ all, L'.name = name ∧ QOK env L' false "_recurrent_kernel" q := by
+            intro name q hk
+            rcases alookup_cons hk with ⟨hn, hv⟩ | hold
+            · exact ⟨L, hL, hn, hq2 q hv⟩
+            · exact hK.recur name q hold
+          by_cases hsep : L.cls ∈ SEPARABLE
+          · rw [if_pos hsep] at h
+            generalize hres3 : getQuantizer env st2 (L.name ++ "_pointwise_kernel") L.name L.cls false = res3 at h
+            cases res3 with
+            | error e => cases h
+            | ok v3 =>
+              obtain ⟨r3, st3⟩ := v3
+              dsimp only at h
+              obtain ⟨hG3, _, hq3⟩ := getQuantizer_QOK hG2 hres3
+              cases h
+              refine ⟨hG3, hkern, hrec, ?_⟩
+              intro name q hk
+              rcases alookup_cons hk with ⟨hn, hv⟩ | hold
+              · exact ⟨L, hL, hn, hq3 q hv⟩
+              · exact hK.pw name q hold
+          · rw [if_neg hsep] at h
+            cases h
+            exact ⟨hG2, hkern, hrec, hK.pw⟩
+      · rw [if_neg hseq] at h
+        dsimp only at h
+        by_cases hsep : L.cls ∈ SEPARABLE
+        · rw [if_pos hsep] at h
+          generalize hres3 : getQuantizer env st1 (L.name ++ "_pointwise_kernel") L.name L.cls false = res3 at h
+          cases res3 with
+          | error e => cases h
+          | ok v3 =>
+            obtain ⟨r3, st3⟩ := v3
+            dsimp only at h
+            obtain ⟨hG3, _, hq3⟩ := getQuantizer_QOK hG1 hres3
+            cases h
+            refine ⟨hG3, hkern, hK.recur, ?_⟩
+            intro name q hk
+            rcases alookup_cons hk with ⟨hn, hv⟩ | hold
+            · exact ⟨L, hL, hn, hq3 q hv⟩
+            · exact hK.pw name q hold
+        · rw [if_neg hsep] at h
+          cases h
+          exact ⟨hG1, hkern, hK.recur, hK.pw⟩
+  · rw [if_neg hreg] at h
+    cases h
+    exact hK
+
+theorem loop1_inv {env : Env} {tn : Tune} {all : List Layer} :
+    ∀ {layers : List Layer} {s s' : S1}, (∀ L ∈ layers, L ∈ all) → K1 env all s →
+      loop1 env tn s layers = .ok s' → K1 env all s'
+  | [], s, s', _, hK, h => by
+    simp only [loop1, Except.ok.injEq] at h; subst h; exact hK
+  | L :: t, s, s', hsub, hK, h => by
+    unfold loop1 at h
+    generalize hres : loop1Step env tn s L = res at h
+    cases res with
+    | error e => cases h
+    | ok sm =>
+      dsimp only at h
+      exact loop1_inv (fun L' hL' => hsub L' (List.mem_cons_of_mem _ hL'))
+        (loop1Step_inv (hsub L (by simp)) hK hres) h
+
+theorem rolesFor_suffix {L : Layer} {key suf : String} (h : (key, suf) ∈ rolesFor L) :
+    roleSuffix key = some suf := by
+  unfold rolesFor at h
+  simp only [List.mem_append] at h
+  rcases h with h | h
+  · split at h
+    · simp only [List.mem_singleton, Prod.mk.injEq] at h
+      obtain ⟨rfl, rfl⟩ := h; decide
+    · simp at h
+  · split at h
+    · simp only [List.mem_cons, Prod.mk.injEq, List.mem_nil_iff, or_false] at h
+      rcases h with ⟨rfl, rfl⟩ | ⟨rfl, rfl⟩ <;> decide
+    · simp only [List.mem_append] at h
+      rcases h with h | h
+      · split at h
+        · simp only [List.mem_singleton, Prod.mk.injEq] at h
+          obtain ⟨rfl, rfl⟩ := h; decide
+        · simp at h
+      · split at h
+        · simp only [List.mem_singleton, Prod.mk.injEq] at h
+          obtain ⟨rfl, rfl⟩ := h; decide
+        · simp at h
+
+theorem roleSuffix_kernelName (cls : String) : roleSuffix (kernelName cls) = some "_kernel" := by
+  unfold kernelName
+  split <;> decide
+
+theorem extraPart_spec (c : Prop) [Decidable c] (d : List (String × Option String)) (nm k : String)
+    (a : List (String × Option String))
+    (h : (if c then (alookup nm d).map (fun q => [(k, q)]) else some []) = some a) :
+    ∀ key q, (key, some q) ∈ a → key = k ∧ alookup nm d = some (some q) := by
+  intro key q hm
+  split at h
+  · cases hl : alookup nm d with
+    | none => rw [hl] at h; cases h
+    | some v =>
+      rw [hl] at h
+      simp only [Option.map_some, Option.some.injEq] at h
+      subst h
+      simp only [List.mem_singleton, Prod.mk.injEq] at hm
+      exact ⟨hm.1, by rw [hm.2]⟩
+  · cases h; simp at hm
+
+theorem extraRoles_spec {env : Env} {all : List Layer} {s1 : S1} {L : Layer}
+    {extra : List (String × Option String)} (hK : K1 env all s1) (h : extraRoles s1 L = some extra) :
+    ∀ key q, (key, some q) ∈ extra →
+      ∃ L' ∈ all, L'.name = L.name ∧ ∃ suf, roleSuffix key = some suf ∧ QOK env L' false suf q := by
+  unfold extraRoles at h
+  generalize ha : (if L.cls ∈ SEQUENCE then
+      (alookup L.name s1.recDict).map (fun q => [("recurrent_quantizer", q)]) else some []) = oa at h
+  generalize hb : (if L.cls ∈ SEPARABLE then
+      (alookup L.name s1.pwDict).map (fun q => [("pointwise_quantizer", q)]) else some []) = ob at h
+  cases oa with
+  | none => cases h
+  | some a =>
+    cases ob with
+    | none => cases h
+    | some b =>
+      dsimp only at h
+      cases h
+      intro key q hm
+      rw [List.mem_append] at hm
+      rcases hm with hm | hm
+      · obtain ⟨rfl, hl⟩ := extraPart_spec _ _ _ _ _ ha key q hm
+        obtain ⟨L', hL', hn, hq⟩ := hK.recur _ _ hl
+        exact ⟨L', hL', hn, "_recurrent_kernel", by decide, hq⟩
+      · obtain ⟨rfl, hl⟩ := extraPart_spec _ _ _ _ _ hb key q hm
+        obtain ⟨L', hL', hn, hq⟩ := hK.pw _ _ hl
+        exact ⟨L', hL', hn, "_pointwise_kernel", by decide, hq⟩
+
+/-- invariant of the second loop -/
+def K2 (env : Env) (all : List Layer) (s : S2) : Prop :=
+  GroupsOK env s.st.groups ∧ ∀ x ∈ s.qdict, EntryOK env all x.1 x.2
+
+theorem K2_append {env : Env} {all : List Layer} {s : S2} {st : St} {name : String} {e : QEntry}
+    {arch : List Layer} (hK : K2 env all s) (hG : GroupsOK env st.groups) (he : EntryOK env all name e) :
+    K2 env all { st := st, qdict := s.qdict ++ [(name, e)], arch := arch } := by
+  refine ⟨hG, ?_⟩
+  intro x hx
+  simp only [List.mem_append, List.mem_singleton] at hx
+  rcases hx with hx | rfl
+  · exact hK.2 x hx
+  · exact he
+
+theorem loop2Step_inv {env : Env} {tn : Tune} {nf : Rat} {all : List Layer} {s1 : S1} {i : Nat}
+    {s s' : S2} {L : Layer} (hL : L ∈ all) (hK1 : K1 env all s1) (hK : K2 env all s)
+    (h : loop2Step env tn nf s1 i s L = .ok s') : K2 env all s' := by
+  unfold loop2Step at h
+  simp only at h
+  by_cases hex : excludedB tn i = true
+  · rw [if_pos hex] at h; cases h; exact hK
+  rw [if_neg hex] at h
+  by_cases hreg : L.cls ∈ REGISTERED
+  · rw [if_pos hreg] at h
+    cases hk : alookup L.name s1.kdict with
+    | none => rw [hk] at h; cases h
+    | some kb =>
+      obtain ⟨kq, b⟩ := kb
+      rw [hk] at h
+      dsimp only at h
+      by_cases htr : (!truthy kq) = true
+      · rw [if_pos htr] at h; cases h; exact hK
+      · rw [if_neg htr] at h
+        cases hex : extraRoles s1 L with
+        | none => rw [hex] at h; cases h
+        | some extra =>
+        rw [hex] at h
+        dsimp only at h
+        generalize hst0 : ({ groups := s.st.groups, log := _ } : St) = st0 at h
+        have hG0 : GroupsOK env st0.groups := by rw [← hst0]; exact hK.1
+        generalize hres : requestAll env L st0 (rolesFor L) = res at h
+        cases res with
+        | error e => cases h
+        | ok v =>
+          obtain ⟨rs, st2⟩ := v
+          dsimp only at h
+          cases h
+          obtain ⟨hG2, hrs⟩ := requestAll_spec hG0 hres
+          refine K2_append hK hG2 ?_
+          intro key q hm
+          rw [List.mem_append, List.mem_cons] at hm
+          rcases hm with (heq | hm) | hm
+          · simp only [Prod.mk.injEq] at heq
+            obtain ⟨rfl, hkq⟩ := heq
+            subst hkq
+            obtain ⟨L', hL', hn, hq⟩ := hK1.kernel _ _ _ hk
+            exact ⟨L', hL', hn, "_kernel", roleSuffix_kernelName _, hq⟩
+          · exact extraRoles_spec hK1 hex key q hm
+          · obtain ⟨suf, hmem, hq⟩ := hrs key q hm
+            exact ⟨L, hL, rfl, suf, rolesFor_suffix hmem, hq⟩
+  rw [if_neg hreg] at h
+  by_cases hres : L.cls = "Reshape"
+  · rw [if_pos hres] at h
+    by_cases h1 : tn.tuneFilters = "layer"
+    · rw [if_pos h1] at h; cases h
+    · rw [if_neg h1] at h
+      split at h
+      · cases h; exact hK
+      · cases h
+  rw [if_neg hres] at h
+  by_cases hact : L.cls = "Activation"
+  · rw [if_pos hact] at h
+    by_cases hsm : L.act = "softmax"
+    · rw [if_pos hsm] at h; cases h; exact hK
+    · rw [if_neg hsm] at h
+      generalize hres2 : getQuantizer env s.st (L.name ++ "_activation") L.name L.cls
+        (decide (L.act = "linear")) = res at h
+      cases res with
+      | error e => cases h
+      | ok v =>
+        obtain ⟨r, st1⟩ := v
+        dsimp only at h
+        obtain ⟨hG1, _, hq1⟩ := getQuantizer_QOK hK.1 hres2
+        cases hu : (unpack r).1 with
+        | none => rw [hu] at h; cases h; exact ⟨hG1, hK.2⟩
+        | some q =>
+          rw [hu] at h
+          dsimp only at h
+          by_cases hq : q = ""
+          · rw [if_pos hq] at h; cases h; exact ⟨hG1, hK.2⟩
+          · rw [if_neg hq] at h; cases h
+            exact K2_append hK hG1 ⟨L, hL, rfl, hact, hq1 q hu⟩
+  rw [if_neg hact] at h
+  split at h
+  · cases h; exact K2_append hK hK.1 (by intro key q hm; simp at hm)
+  · split at h
+    · cases h; exact K2_append hK hK.1 (by intro key q hm; simp at hm)
+    · cases h; exact hK
+
+theorem loop2_inv {env : Env} {tn : Tune} {nf : Rat} {all : List Layer} {s1 : S1}
+    (hK1 : K1 env all s1) :
+    ∀ {layers : List Layer} {i : Nat} {s s' : S2}, (∀ L ∈ layers, L ∈ all) → K2 env all s →
+      loop2 env tn nf s1 i s layers = .ok s' → K2 env all s'
+  | [], i, s, s', _, hK, h => by
+    simp only [loop2, Except.ok.injEq] at h; subst h; exact hK
+  | L :: t, i, s, s', hsub, hK, h => by
+    unfold loop2 at h
+    generalize hres : loop2Step env tn nf s1 i s L = res at h
+    cases res with
+    | error e => cases h
+    | ok sm =>
+      dsimp only at h
+      exact loop2_inv hK1 (fun L' hL' => hsub L' (List.mem_cons_of_mem _ hL'))
+        (loop2Step_inv (hsub L (by simp)) hK1 hK hres) h
+
+/-- every value of the dictionary handed to `model_quantize` is within the limit of a layer of
+    that name, in the role of its key -/
+theorem quantizeModel_within {env : Env} {tn : Tune} {layers : List Layer} {o : QmOut}
+    (h : quantizeModel env tn layers = .ok o) : ∀ x ∈ o.qdict, EntryOK env layers x.1 x.2 := by
+  unfold quantizeModel at h
+  generalize hres : loop1 env tn {} layers = res at h
+  cases res with
+  | error e => cases h
+  | ok s1 =>
+    dsimp only at h
+    have hK0 : K1 env layers ({} : S1) :=
+      ⟨by intro k i q b hk; simp [alookup] at hk, by intro n q b hk; simp [alookup] at hk,
+       by intro n q hk; simp [alookup] at hk, by intro n q hk; simp [alookup] at hk⟩
+    have hK1 := loop1_inv (fun L hL => hL) hK0 hres
+    generalize hst : (if (decide (tn.tuneFilters = "block") && s1.sweep) = true then
+        ({ groups := s1.st.groups, log := s1.st.log ++ [HpCall.choiceF "network_filters" filterRange] } : St)
+        else s1.st) = st0 at h
+    have hG0 : GroupsOK env st0.groups := by
+      rw [← hst]; split <;> exact hK1.groups
+    generalize hres2 : loop2 env tn _ s1 0 { st := st0 } layers = res2 at h
+    cases res2 with
+    | error e => cases h
+    | ok s2 =>
+      dsimp only at h
+      cases h
+      exact (loop2_inv hK1 (fun L hL => hL) ⟨hG0, by intro x hx; simp at hx⟩ hres2).2
 
 end QKV.AutoQ
